@@ -139,8 +139,14 @@ func verifyMatchRule(ruleData map[string]string,
 	}
 	// Iterate over queue and mark consumed artifacts
 	for srcPath := range srcArtifactQueue {
+		// Ignore artifacts that are not located under the optional source
+		// prefix
+		if !strings.HasPrefix(srcPath, ruleData["srcPrefix"]) {
+			continue
+		}
+
 		// Remove optional source prefix from source artifact path
-		// Noop if prefix is empty, or artifact does not have it
+		// Noop if prefix is empty
 		srcBasePath := strings.TrimPrefix(srcPath, ruleData["srcPrefix"])
 
 		// Ignore artifacts not matched by rule pattern
